@@ -241,16 +241,24 @@ Proof.
       * repeat split; auto. intro Hr. apply (r_unreg st HI _ Hs0 Hr).
     + intros s0 w Hs0. updf_cases; apply (r_sel st HI); assumption.
   - (* Wrap *)
-    rename H into Hs.
-    constructor; cbn [step nsess sess_of nwr wr panic lreleased lmark delivered backlog closing cl_of lmark]; try exact Hp; try (exact (r_clmark st HI)).
+    rename H into Hs. cbn [step]. destruct (in_map (sess_of st s)) eqn:EM; cbn [negb].
+    2:{ (* the session was released: no wrapper *)
+      destruct (loop (sess_of st s)) eqn:EL; try discriminate.
+      apply (rinv_frame st); auto; try (cbn; apply orb_false_r); cbn [set_sess set_sessions sess_of delivered backlog closing cl_of lmark]; try (exact (r_clmark st HI));
+        try (exact (r_deliv st HI)); try (exact (r_bl st HI)); try (exact (r_cl st HI)).
+      + intros s0 Hs0. unfold updf. destruct (Nat.eqb_spec s0 s) as [->|?]; cbn.
+        * repeat split; auto.
+        * repeat split; auto. intro Hr. apply (r_unreg st HI _ Hs0 Hr).
+      + intros s0 w Hs0. updf_cases; [discriminate|]. apply (r_sel st HI); assumption. }
+    constructor; cbn [nsess sess_of nwr wr panic lreleased lmark delivered backlog closing cl_of lmark]; try exact Hp; try (exact (r_clmark st HI)).
     + intros s0 Hs0. unfold open_w; cbn [nwr wr count]. rewrite !updf_same. cbn [w_sess w_closed negb].
       rewrite andb_true_r.
       assert (Hc : count (fun w => Nat.eqb (w_sess (updf (wr st) (nwr st) {| w_sess := s; w_ord := wrapped (sess_of st s); w_closed := false |} w)) s0
                                    && negb (w_closed (updf (wr st) (nwr st) {| w_sess := s; w_ord := wrapped (sess_of st s); w_closed := false |} w))) (nwr st)
                    = open_w st s0).
       { unfold open_w. apply count_ext. intros w Hw. unfold updf. destruct (Nat.eqb_spec w (nwr st)); [lia|reflexivity]. }
-      rewrite Hc. updf_cases.
-      * rewrite Nat.eqb_refl. rewrite (r_refs st HI _ Hs0). lia.
+      rewrite Hc. unfold updf. destruct (Nat.eqb_spec s0 s) as [->|Hne]; cbn [refs in_map].
+      * rewrite Nat.eqb_refl. pose proof (r_refs st HI _ Hs0) as E. rewrite EM in E. rewrite E. unfold b2z. lia.
       * destruct (Nat.eqb_spec s s0); [congruence|]. rewrite (r_refs st HI _ Hs0). lia.
     + intros w Hw. unfold updf. destruct (Nat.eqb_spec w (nwr st)); cbn; [assumption|]. apply (r_wsess st HI); lia.
     + intros s0 Hs0. updf_cases.
@@ -260,7 +268,7 @@ Proof.
     + intros s0 Hs0. updf_cases; [|apply (r_unreg st HI); assumption].
       intro Hr. destruct (r_unreg st HI _ Hs0 Hr) as [_ [_ [Hl _]]]. rewrite Hl in H1. discriminate.
     + intro Hr. destruct (r_rel st HI Hr) as [Hm Hall]. split; [assumption|].
-      intros s0 Hs0. updf_cases; apply Hall; assumption.
+      intros s0 Hs0. updf_cases; [rewrite (Hall _ Hs0) in EM; discriminate|apply Hall; assumption].
     + intros w Hw. pose proof (r_deliv st HI w Hw). lia.
     + intros w Hw. pose proof (r_bl st HI w Hw). lia.
     + intros w Hw. pose proof (r_cl st HI w Hw). lia.
@@ -485,7 +493,7 @@ Record OInv (st : state) : Prop := {
   o_cov : forall w, (w < nwr st)%nat -> occ st w = 1%nat \/ loop (sess_of st (w_sess (wr st w))) = LSelecting w;
   o_cap : (length (backlog st) <= cap st)%nat;
   o_arr : forall s, (s < nsess st)%nat ->
-          arrived (sess_of st s) = (inq (sess_of st s) + wrapped (sess_of st s))%nat;
+          arrived (sess_of st s) = (inq (sess_of st s) + wrapped (sess_of st s) + refused (sess_of st s))%nat;
   o_wc : forall s, (s < nsess st)%nat -> wrapped (sess_of st s) = of_sess st s;
   o_ws : forall w, (w < nwr st)%nat -> (w_sess (wr st w) < nsess st)%nat;
   o_acl : forall w, In w (aclosed st) -> w_closed (wr st w) = true }.
@@ -511,7 +519,7 @@ Lemma oinv_frame : forall st st',
   (length (backlog st') <= cap st')%nat ->
   (forall s, (s < nsess st)%nat ->
      inq (sess_of st' s) = inq (sess_of st s) /\ arrived (sess_of st' s) = arrived (sess_of st s) /\
-     wrapped (sess_of st' s) = wrapped (sess_of st s)) ->
+     wrapped (sess_of st' s) = wrapped (sess_of st s) /\ refused (sess_of st' s) = refused (sess_of st s)) ->
   (forall s w, (s < nsess st)%nat -> (loop (sess_of st' s) = LSelecting w <-> loop (sess_of st s) = LSelecting w)) ->
   (forall w, In w (aclosed st') -> In w (aclosed st) \/ w_closed (wr st' w) = true) ->
   OInv st'.
@@ -526,8 +534,8 @@ Proof.
   - intros w Hw. rewrite Hnw in Hw. rewrite Hocc, Hws. destruct (o_cov st HI w Hw) as [A|A]; [left; assumption|right].
     apply Hsel; [apply (o_ws st HI); assumption|assumption].
   - exact Hcap.
-  - intros s Hlt. rewrite Hns in Hlt. destruct (Hs s Hlt) as [A [B C]]. rewrite A, B, C. apply (o_arr st HI); assumption.
-  - intros s Hlt. rewrite Hns in Hlt. destruct (Hs s Hlt) as [_ [_ C]]. rewrite C.
+  - intros s Hlt. rewrite Hns in Hlt. destruct (Hs s Hlt) as [A [B [C D]]]. rewrite A, B, C, D. apply (o_arr st HI); assumption.
+  - intros s Hlt. rewrite Hns in Hlt. destruct (Hs s Hlt) as [_ [_ [C _]]]. rewrite C.
     rewrite (of_sess_ext st st' s Hnw Hws). apply (o_wc st HI); assumption.
   - intros w Hw. rewrite Hnw in Hw. rewrite Hws, Hns. apply (o_ws st HI); assumption.
   - intros w Hw. destruct (Hacl w Hw) as [A|A]; [|assumption]. apply Hwc. apply (o_acl st HI). assumption.
@@ -617,7 +625,18 @@ Proof.
     + intros s0 Hs. change (of_sess _ s0) with (of_sess st s0). updf_cases; apply (o_wc st HI); assumption.
   - (* Wrap *)
     rename H into Hs. destruct (loop (sess_of st s)) eqn:EL; try discriminate.
-    constructor; cbn [step nsess sess_of nwr wr delivered backlog closing aclosed enq_log recv_log cap];
+    cbn [step]. destruct (in_map (sess_of st s)) eqn:EM; cbn [negb].
+    2:{ (* refused: the stream is closed unwrapped *)
+      constructor; cbn [set_sess set_sessions nsess sess_of nwr wr delivered backlog closing aclosed enq_log recv_log cap];
+        try (exact (o_log st HI)); try (exact (o_occ st HI)); try (exact (o_lt st HI)); try (exact (o_cap st HI));
+        try (exact (o_ws st HI)); try (exact (o_acl st HI)).
+      + intros s0 w Hs0. unfold updf. destruct (Nat.eqb_spec s0 s) as [->|Hne]; cbn [loop]; [discriminate|]. apply (o_sel st HI); assumption.
+      + intros w Hw. change (occ _ w) with (occ st w). destruct (o_cov st HI w Hw) as [A|A]; [left; assumption|right].
+        rewrite updf_other; [assumption|]. intro E. rewrite E, EL in A. discriminate.
+      + intros s0 Hs0. unfold updf. destruct (Nat.eqb_spec s0 s) as [->|Hne]; cbn [arrived inq wrapped refused]; [|apply (o_arr st HI); assumption].
+        rewrite (o_arr st HI _ Hs0). destruct (inq (sess_of st s)); [lia|cbn [Nat.pred]; lia].
+      + intros s0 Hs0. change (of_sess _ s0) with (of_sess st s0). updf_cases; apply (o_wc st HI); assumption. }
+    constructor; cbn [nsess sess_of nwr wr delivered backlog closing aclosed enq_log recv_log cap];
       try (exact (o_log st HI)); try (exact (o_occ st HI)); try (exact (o_cap st HI)).
     + intros w Hw. change (occ _ w) with (occ st w) in Hw. pose proof (o_lt st HI w Hw). lia.
     + intros s0 w Hs0. change (occ _ w) with (occ st w). unfold updf at 1. destruct (Nat.eqb_spec s0 s) as [->|Hne]; cbn [loop].
@@ -829,8 +848,9 @@ Proof.
     dframe st HI. intros s0 Hs p Hp E. unfold updf. destruct (Nat.eqb_spec s0 s) as [->|?]; cbn; assumption.
   - (* Wrap *)
     destruct (loop (sess_of st s)) eqn:EL; try discriminate.
-    dframe st HI. intros s0 Hs p Hp E. unfold updf. destruct (Nat.eqb_spec s0 s) as [->|?]; cbn; [|assumption].
-    rewrite EL in E. destruct Hp; subst; discriminate.
+    cbn [step]. destruct (in_map (sess_of st s)); cbn [negb]; dframe st HI;
+      intros s0 Hs p Hp E; unfold updf; destruct (Nat.eqb_spec s0 s) as [->|?]; cbn; try assumption;
+      rewrite EL in E; destruct Hp; subst; discriminate.
   - (* Enqueue *)
     cbn [step]. destruct (loop (sess_of st s)) as [|w0| | |] eqn:EL; try discriminate.
     constructor; cbn [lmark closeCh backlog].
@@ -924,7 +944,8 @@ Lemma once : forall c evs, let st := run evs (init c) in
   (forall w, (w < nwr st)%nat -> In w (places st) \/ loop (sess_of st (w_sess (wr st w))) = LSelecting w) /\
   (length (backlog st) <= cap st)%nat /\
   (forall s, (s < nsess st)%nat ->
-     arrived (sess_of st s) = (inq (sess_of st s) + count (fun w => Nat.eqb (w_sess (wr st w)) s) (nwr st))%nat).
+     arrived (sess_of st s) = (inq (sess_of st s) + count (fun w => Nat.eqb (w_sess (wr st w)) s) (nwr st)
+                               + refused (sess_of st s))%nat).
 Proof.
   intros c evs st. pose proof (oinv_run evs (init c) (oinv_init c)) as HI. fold st in HI.
   split; [exact (o_log st HI)|].
@@ -961,6 +982,7 @@ Lemma nsess_mono : forall st e, (nsess st <= nsess (exec st e))%nat.
 Proof.
   intros st e. unfold exec. destruct (enabled st e); [|lia].
   destruct e; cbn [step set_sess set_sessions nsess]; try lia.
+  - destruct (in_map (sess_of st s)); cbn; lia.
   - destruct (loop (sess_of st s)); cbn; lia.
   - destruct (loop (sess_of st s)); cbn; lia.
   - destruct (backlog st) eqn:EB; cbn; [lia|]. rewrite nsess_take_head. lia.
@@ -1008,7 +1030,7 @@ Proof.
   destruct e; cbn [enabled] in En; bool_hyps; cbn [step set_sess set_sessions].
   - apply wgz_same. cbn. unfold updf. destruct (Nat.eqb_spec s (nsess st)); [lia|reflexivity].
   - apply wgz_same. cbn. unfold updf. destruct (Nat.eqb_spec s s0); subst; reflexivity.
-  - apply wgz_same. cbn. unfold updf. destruct (Nat.eqb_spec s s0); subst; reflexivity.
+  - destruct (in_map (sess_of st s0)); apply wgz_same; cbn; unfold updf; destruct (Nat.eqb_spec s s0); subst; reflexivity.
   - destruct (loop (sess_of st s0)); try (apply wgz_same; reflexivity).
     apply wgz_same. cbn. unfold updf. destruct (Nat.eqb_spec s s0); subst; reflexivity.
   - destruct (loop (sess_of st s0)); try (apply wgz_same; reflexivity).
@@ -1050,6 +1072,7 @@ Proof.
   intros st e s Hge Hs. unfold exec in *. destruct (enabled st e) eqn:En; [|lia].
   destruct e; cbn [step set_sess set_sessions nsess sess_of] in *; try lia.
   - assert (s = nsess st) by lia. subst s. rewrite updf_same. destruct (lmark st); reflexivity.
+  - destruct (in_map (sess_of st s0)); cbn in Hs; lia.
   - destruct (loop (sess_of st s0)); cbn in Hs; lia.
   - destruct (loop (sess_of st s0)); cbn in Hs; lia.
   - destruct (backlog st) eqn:EB; cbn in Hs; [lia|]. rewrite nsess_take_head in Hs. lia.
@@ -1162,35 +1185,30 @@ Proof.
 Qed.
 
 (* sync.WaitGroup contract: "if a WaitGroup is reused, new Add calls must happen after all previous Wait
-   calls have returned".  wg.Add(1) in newStreamWrapper on a counter that has already reached zero runs
-   concurrently with the `wg.Wait(); session.Close()` goroutine that the zero released: the runtime may
-   panic "WaitGroup is reused before previous Wait has returned" (it does, see the harness). *)
+   calls have returned".  A wg.Add(1) on a counter that has already reached zero would run concurrently
+   with the `wg.Wait(); session.Close()` goroutine that the zero released (the runtime then panics
+   "WaitGroup is reused before previous Wait has returned").  The only Add after registration is the one
+   in newStreamWrapper, performed by Wrap when the session is still in l.sessions. *)
 Definition add_from_zero (st : state) (e : event) : bool :=
   match e with
-  | Wrap s => enabled st e && registered (sess_of st s) && (refs (sess_of st s) =? 0)
+  | Wrap s => enabled st e && in_map (sess_of st s) && (refs (sess_of st s) =? 0)
   | _ => false
   end.
 
 Definition no_waitgroup_reuse_full : Prop := forall c evs e, add_from_zero (run evs (init c)) e = false.
 
-Definition witness_reuse : list event := [SessionUp; LCall; LStep 0; LStep 0; LStep 0; LStep 0; StreamIn 0].
+(* the history that produced an Add from zero before the repair: now the stream is closed unwrapped *)
+Definition witness_reuse : list event := [SessionUp; LCall; LStep 0; LStep 0; LStep 0; LStep 0; StreamIn 0; Wrap 0].
 
-Lemma waitgroup_reuse_refuted : ~ no_waitgroup_reuse_full.
-Proof. intro H. specialize (H 1%nat witness_reuse (Wrap 0)). vm_compute in H. discriminate. Qed.
-
-(* it can only happen to a stream that arrives after the session's counter reached zero, i.e. after
-   listener.Close released the listener's reference with every wrapper closed *)
-Lemma waitgroup_reuse_only_after_zero : forall c evs s, let st := run evs (init c) in
-  add_from_zero st (Wrap s) = true ->
-  wg_zero (sess_of st s) = true /\ in_map (sess_of st s) = false /\ open_w st s = O.
+Lemma no_waitgroup_reuse : no_waitgroup_reuse_full.
 Proof.
-  intros c evs s st H. pose proof (rinv_run evs (init c) (rinv_init c)) as HI. fold st in HI.
-  unfold add_from_zero in H. apply andb_prop in H. destruct H as [H Hz]. apply andb_prop in H. destruct H as [He Hr].
-  apply Z.eqb_eq in Hz. cbn [enabled] in He. apply andb_prop in He. destruct He as [He _]. apply andb_prop in He. destruct He as [Hs _].
-  apply Nat.ltb_lt in Hs.
-  split; [apply (r_zero st HI s Hs Hr Hz)|].
-  pose proof (r_refs st HI s Hs) as E. rewrite Hz in E. unfold b2z in E.
-  destruct (in_map (sess_of st s)); split; try reflexivity; lia.
+  intros c evs e. pose proof (rinv_run evs (init c) (rinv_init c)) as HI.
+  set (st := run evs (init c)) in *. destruct e; try reflexivity.
+  unfold add_from_zero. destruct (enabled st (Wrap s)) eqn:En; [|reflexivity].
+  destruct (in_map (sess_of st s)) eqn:EM; [|reflexivity]. cbn [andb].
+  cbn [enabled] in En. apply andb_prop in En. destruct En as [En _]. apply andb_prop in En. destruct En as [Hs _].
+  apply Nat.ltb_lt in Hs. pose proof (r_refs st HI s Hs) as E. rewrite EM in E. unfold b2z in E.
+  apply Z.eqb_neq. lia.
 Qed.
 
 (* ---------------------------------------------------------------------------------------- *)
